@@ -88,6 +88,7 @@ class ipv4(packet_base):
         self.dstip = IP_ANY
         self.next  = b''
         self.raw_options = b''
+        self.trailer = b'' # What follows the datagram (link-layer padding)
 
         if raw is not None:
             self.parse(raw)
@@ -151,6 +152,7 @@ class ipv4(packet_base):
         length = self.iplen
         if length > dlen:
             length = dlen # Clamp to what we've got
+        self.trailer = raw[length:]
         if self.frag != 0:
             # We can't parse payloads!
             self.next =  raw[self.hl*4:length]
@@ -171,6 +173,10 @@ class ipv4(packet_base):
 
         if isinstance(self.next, packet_base) and not self.next.parsed:
             self.next = raw[self.hl*4:length]
+
+    def pack(self):
+        # Padding behind the datagram belongs to the frame; carry it along
+        return packet_base.pack(self) + self.trailer
 
     def checksum(self):
         data = struct.pack('!BBHHHBBHII', (self.v << 4) + self.hl, self.tos,
